@@ -31,7 +31,7 @@ MANIFEST = dict(
 GEN = ["SseUnits"]
 THEOREMS = [
     "c12_endpoint_forms", "c12_data_only_announcement", "c12_live_or_raise", "c12_enter_bounded", "c12_enter_complete",
-    "c12_race_exactly_once", "c12_race_count", "c12_request_leaves_idle", "c12_serial_requests",
+    "c12_race_exactly_once", "c12_event_first_any_post", "c12_race_count", "c12_request_leaves_idle", "c12_serial_requests",
     "c12_stream_chunk_independent", "c12_delivery_chunk_independent", "c12_stream_delivers_rendered",
     "c12_stream_delivers_conformant", "c12_server_messages_once_in_order", "c12_cleanup_closes_all",
     "c12_stream_end_after_announcement", "c12_stream_end_requests", "c12_post_target_function", "c12_endpoint_same_origin", "c12_endpoint_translated_agrees", "c12_session_id_none_iff",
@@ -50,6 +50,10 @@ RULE = (
     "multi-byte characters, CRLF, comments, keepalives and junk; exit paths {normal, exception in body, asyncio cancellation, anyio "
     "cancel scope} x 13-17 points of a request's life x 6 modes; back-pressure: the consumer pauses while bursts of 0/1/99/100/101/150/400 "
     "server messages (one chunk, one chunk per event, arbitrary cuts) queue up, with a request whose answer travels behind the burst; "
+    "race matrix: every way a POST can complete {200 + answer, 200 unreadable / empty, 202, non-2xx with text / empty / JSON / JSON-RPC body, "
+    "exception} x {no answer on the event stream, the answer before / at the same instant as / after the POST completion, whole or cut} x "
+    "three tie orders, each followed by two more requests on the same session (a stalled reader or sender shows there; the exit is late "
+    "enough for every synthesised timeout, so a hang is a missing terminal, not a machinery timeout); "
     "three tie orders (events/timers/io); hardening sweep (suite variants): request ids {7, \"7\", 0, \"0\", \"\", -1, 2^53+1, format-hostile, 5000 chars, "
     "strings the transport looks for} x every mode incl. unreadable 200 bodies x written as dict / JSONRPCMessage, id twins and one id used "
     "again in serial requests, answers with empty/falsy members, error answers with falsy members or the transport's own codes, extra members, "
@@ -69,7 +73,9 @@ ASSUMPTIONS = [
     "scripted instants never coincide with the timeout / connection-cap instants in the correspondence run (either outcome satisfies the property there)",
     "server messages on the event stream carry ids whose str() differs from str(id) of the client's requests in flight (the pending table is keyed by str(id))",
     "ids are compared with their JSON type (7 is not \"7\"), also for the messages the transport synthesises",
-    "a second endpoint announcement, two answers to one request and an answer after the synthesised timeout are outside the quantifier and not generated; line ends are LF or CRLF (a lone CR is not treated as a line end, as in the Streamable-HTTP transport)",
+    "a second answer of the server AFTER the request has ended with its POST (200 + answer / non-2xx / exception, then an event) may or may not be delivered (1 or 2 entries accepted); an answer on the stream BEFORE any POST completion must give exactly one",
+    "a 200 whose body is not the answer (acknowledgement document, foreign response) is generated only with VERIF_C12_200ACK=1 (candidate finding findings/C12-200-with-non-answer-body.json)",
+    "a second endpoint announcement and an answer after the synthesised timeout are outside the quantifier and not generated; line ends are LF or CRLF (a lone CR is not treated as a line end, as in the Streamable-HTTP transport)",
     "no theorem depends on the connection cap or on the codes of the synthesised errors; the generator re-reads them from the source on every run (through constants and builder functions) and otherwise measures the cap on the running code and compares synthesised errors without their codes (see notes)",
     "release of real tasks/streams/clients is observed only through the mock transport (no real sockets in the quick tier)",
 ]
@@ -209,6 +215,8 @@ def oracle_requests(case, o, upto=None):
         group = terms[G.py_key(r["id"])]
         mine = [m for m in group if same_id(m["id"], r["id"])]
         expect = sum(1 for x in reqs if same_id(x["id"], r["id"]))
+        # a second answer the server sends after the request has ended may or may not be delivered
+        slack = sum(1 for x in reqs if same_id(x["id"], r["id"]) and G.late_duplicate(x))
         tag = r["mode"] + ("/" + r.get("body", "text") if r["mode"] == "status" else "")
         idk = "int" if isinstance(r["id"], int) else "str"
         if len(mine) < expect:
@@ -218,7 +226,7 @@ def oracle_requests(case, o, upto=None):
                         f"{twins[0]}", {"id": r["id"]})
             return (f"terminal/none/{tag}", f"request {r['id']!r} ({tag}) got {len(mine)} of {expect} messages with its id on the read stream; "
                     f"delivered={o.get('delivered')[:12]}", {"terminals": expect})
-        if len(mine) > expect:
+        if len(mine) > expect + slack:
             return (f"terminal/many/{tag}", f"request {r['id']!r} ({tag}) got {len(mine)} messages with its id, expected {expect}", {"terminals": expect})
         for m in mine:
             if "result" not in m and "error" not in m:
@@ -492,6 +500,29 @@ class Grammar(Base):
         return "grammar/" + ("+".join(st) or "plain")
 
 
+class RaceMatrix(Base):
+    name = "race-matrix"
+
+    def cases(self, ctx, budget):
+        ctx.exhaustive_parts.append("race-matrix: POST completion kinds x {no event, event before / at / after the POST completion} x tie order")
+        return G.race_matrix_cases(budget, ctx.sub_rng("c12-race", budget))
+
+    def oracle(self, case, o):
+        if o.get("harness_errors"):
+            return None
+        v = oracle_enter(case, o)
+        if v is None and (o.get("enter") or {}).get("k") == "yielded":
+            v = oracle_requests(case, o)
+        if v is None and (o.get("enter") or {}).get("k") == "yielded":
+            v = oracle_release(case, o)
+        return v
+
+    def kind(self, case, o):
+        r = case["reqs"][0]
+        k = r["mode"] + ("-" + r.get("body", "") if r["mode"] == "status" else "") + ("-" + r["body200"] if r.get("body200") else "")
+        return f"race/{k}/event-{G.event_order(r) or 'none'}"
+
+
 class Boundaries(Base):
     name = "boundaries"
 
@@ -600,4 +631,4 @@ def extra(ctx, tier):
 
 
 def suites():
-    return [Establish(), Requests(), Chunking(), Backpressure(), Variants(), Grammar(), Boundaries(), Exits(), Units()]
+    return [Establish(), Requests(), Chunking(), Backpressure(), Variants(), Grammar(), RaceMatrix(), Boundaries(), Exits(), Units()]
